@@ -129,6 +129,8 @@ def parse_result(line):
         return {"kind": t[1]}
     if t[0] == "panic":
         return {"kind": "panic"}
+    if t[0] == "hang":
+        return {"kind": "hang"}
     return {"kind": "other", "raw": line}
 
 
@@ -231,13 +233,14 @@ def run_property(pid, res, proofs_ok, proofs_why, only=None):
     res.rule = ("distinct = distinct case lines; non-trivial = mono within 2 ns of a threshold of the statement "
                 "(as_of-1000, as_of, as_of+5s, void_after), or a monotone pair, or a range edge, or exact growth within 1e-6 of an integer")
     model = c.run_model(lines + outside)
-    impl_dbg = c.run_lines(c.build_harness("debug")[0], lines + outside)
-    impl_rel = c.run_lines(c.build_harness("release")[0], lines)
+    # a call that does not return within 5 s is recorded as outcome "hang" instead of stopping the check
+    impl_dbg = c.run_lines_hang_aware(c.build_harness("debug")[0], lines + outside, "hang")
+    impl_rel = c.run_lines_hang_aware(c.build_harness("release")[0], lines, "hang")
     # the C library (release libclockbound.so), one context for the whole chunk of cases; only cases
     # in the range of the statement (outside it the library may abort, which would lose the rest)
     from props import _files
     c_idx = [i for i, ln in enumerate(lines) if in_range(parse_case(ln))]
-    c_out = dict(zip(c_idx, c.run_lines(_files.build_c_driver(), [lines[i] for i in c_idx], args=())))
+    c_out = dict(zip(c_idx, c.run_lines_hang_aware(_files.build_c_driver(), [lines[i] for i in c_idx], "hang", args=())))
     res.evaluations = 2 * len(lines) + len(outside) + len(c_idx)
     proj, pred = PROJ[pid], PRED[pid]
     diffs, bad = [], []
@@ -256,6 +259,10 @@ def run_property(pid, res, proofs_ok, proofs_why, only=None):
             ri = parse_result(impl[i])
             if prof == "debug":
                 kinds[ri["kind"]] = kinds.get(ri["kind"], 0) + 1
+            if ri["kind"] == "hang":
+                bad.append({"case": line, "profile": prof, "impl": "no return within 5 s", "model": model[i],
+                            "why": ["now() did not return: a client call must complete after a bounded amount of work whatever the segment holds"]})
+                continue
             if ri["kind"] == "other":
                 diffs.append({"case": line, "profile": prof, "impl": impl[i], "model": model[i], "note": "shm crate and client library disagree"})
                 continue
